@@ -85,3 +85,28 @@ def gen_jsonrange(items):
     items.append(f64_round)
     items.append(lambda: f'def fp_search_on_json_numerical_field : String := "{fingerprint(f, "search_on_json_numerical_field")}"')
     items.append(lambda: f'def fp_transform_from_f64_bounds : String := "{fingerprint(f, "transform_from_f64_bounds")}"')
+
+
+@module('FastRange')
+def gen_fastrange(items):
+    f = 'src/query/range_query/range_query_fastfield.rs'
+
+    def shortcut_cards():
+        # search_on_u64_ff: "the range covers [column min, column max]" becomes an AllScorer only under a
+        # condition on the column's cardinality; read for which cardinalities the shortcut is taken
+        body = ' '.join(fn_body(f, 'search_on_u64_ff').split())
+        m = re.search(r'if col_min_value >= \*value_range\.start\(\) && col_max_value <= \*value_range\.end\(\) \{ '
+                      r'if (.*?) \{ if boost != 1\.0f32 \{ return Ok\(Box::new\(ConstScorer::new\( AllScorer::new\(column\.num_docs\(\)\), boost, \)\)\); \} '
+                      r'else \{ return Ok\(Box::new\(AllScorer::new\(column\.num_docs\(\)\)\)\); \} \} else \{ \} \} '
+                      r'let docset = RangeDocSet::new\(value_range, column\);', body)
+        if not m:
+            raise Fail(f'{f}: search_on_u64_ff: the AllScorer shortcut has an unknown shape: {body[-700:]!r}')
+        cond = m.group(1).strip()
+        cards = ['Full', 'Optional', 'Multivalued']
+        mm = re.fullmatch(r'column\.index\.get_cardinality\(\) (==|!=) Cardinality::(Full|Optional|Multivalued)', cond)
+        if not mm:
+            raise Fail(f'{f}: search_on_u64_ff: the cardinality condition of the AllScorer shortcut has an unknown shape: {cond!r}')
+        on = {c: int((c == mm.group(2)) == (mm.group(1) == '==')) for c in cards}
+        return '\n'.join(D(f'RANGE_ALL_SHORTCUT_ON_{c.upper()}', on[c], f'search_on_u64_ff: AllScorer shortcut taken for a {c} column (condition `{cond}`)') for c in cards)
+    items.append(shortcut_cards)
+    items.append(lambda: f'def fp_search_on_u64_ff : String := "{fingerprint(f, "search_on_u64_ff")}"')
